@@ -520,3 +520,21 @@ Proof.
 Qed.
 
 End Getters2.
+
+(* LLDP.Capability: the C20 text is VIEWS' LLDP_Capability_s (Model/ViewsDispatch.v), for every value *)
+From PV Require Import Model.ViewsDispatch.
+
+Lemma capability_byte b : b < 256 -> s2b (LLDP_Capability_s [0; b]) = lldp_capability [0; b].
+Proof.
+  intros H.
+  assert (S : forall n, n < 256 -> beq_bytes (s2b (LLDP_Capability_s [0; n])) (lldp_capability [0; n]) = true).
+  { apply sweep256. vm_compute. reflexivity. }
+  apply beq_bytes_eq. apply S. exact H.
+Qed.
+
+Theorem glue_LLDP_Capability v : bytes_ok v -> s2b (LLDP_Capability_s v) = lldp_capability v.
+Proof.
+  intros B. destruct v as [|a [|b r]]; [reflexivity|reflexivity|].
+  assert (Hb : b < 256) by (unfold bytes_ok in B; inversion B as [|? ? _ B2]; inversion B2; assumption).
+  exact (capability_byte b Hb).
+Qed.
